@@ -47,7 +47,7 @@ def run(prog, rep):
                       "the two scan implementations differ on %s: strict `%s` vs lazy `%s`" % (k, a, b))
     # the arm regex is the pattern as written: compiled by Regex::new with the default options
     rep.rule("C10.rx", "an arm's regex is Regex::new(<the parsed pattern string>): no builder options (multi-line, case-insensitive, …) and no rewriting of the pattern text")
-    ps = [f for f in prog.fns.values() if f.name == "parse_statement" and f.self_path == "tsg::parser::Parser"]
+    ps = [f for f in prog.shape_fns() if f.name == "parse_statement" and f.self_path == "tsg::parser::Parser"]
     if len(ps) != 1:
         rep.violation("C10.rx", "anchor-lost:parse_statement", "", "not found")
     else:
@@ -61,7 +61,7 @@ def run(prog, rep):
             d = dict(zip(arms[0]["rv"]["fields"], arms[0]["rv"]["ops"]))
             got = canon_full(inline_local_calls(prog, ptr.operand(d["regex"])))
             ok = re.match(r"^\(Try::branch\((Result::map_err\()?Regex::new\(&\*(Deref::deref\(&)?\(Try::branch\(Parser::parse_string\(&\*arg:self\)\) as Continue\)\.0\)?\)", got) is not None
-        builder = [callee_fn(t)["def"] for g in prog.fns.values() if g.body is not None and g.crate.prefix == "tsg" for _b, t in g.body.calls() if is_callee(t, r"regex::(RegexBuilder|RegexSetBuilder|bytes::RegexBuilder)::")]
+        builder = [callee_fn(t)["def"] for g in prog.shape_fns() if g.body is not None and g.crate.prefix == "tsg" for _b, t in g.body.calls() if is_callee(t, r"regex::(RegexBuilder|RegexSetBuilder|bytes::RegexBuilder)::")]
         rep.check(ok and not builder, "C10.rx", "parse_statement :: arm regex", f.loc(), "ScanArm.regex = Regex::new(&parse_string()?)",
                   "a scan arm's regex is not compiled from the written pattern with default options (%s%s)" % (got[:140], "; builder calls: %s" % sorted(set(builder)) if builder else ""))
     # nullable rejection in the checker
